@@ -156,11 +156,6 @@ func chunkOldPrimary(ctx context.Context, name string, fileSizeLimit int64) (uin
 			break
 		}
 		size := binary.LittleEndian.Uint32(sizeBuf)
-		if _, err = writer.Write(sizeBuf); err != nil {
-			outFile.Close()
-			return 0, err
-		}
-		pos += sizePrefixSize
 
 		del := false
 		if size&deletedBit != 0 {
@@ -174,11 +169,20 @@ func chunkOldPrimary(ctx context.Context, name string, fileSizeLimit int64) (uin
 		data := scratch[:size]
 
 		if !del {
-			if _, err = file.ReadAt(data, pos); err != nil {
+			// Read the record before copying its size prefix, so that a
+			// truncated last record is dropped whole and does not leave a
+			// size prefix without data at the end of the new primary.
+			if _, err = file.ReadAt(data, pos+sizePrefixSize); err != nil {
 				log.Errorw("Error reading primary", "err", err)
 				break
 			}
 		}
+		if _, err = writer.Write(sizeBuf); err != nil {
+			outFile.Close()
+			return 0, err
+		}
+		pos += sizePrefixSize
+
 		_, err := writer.Write(data)
 		if err != nil {
 			outFile.Close()
